@@ -21,7 +21,10 @@ def keys_for(sim, src, ptype):
         ks = d.app[d.gen] if d.app else None
     if not ks:
         return None, 0
-    return ks[0], (d.gen % 2 if ptype == "1rtt" else 0)
+    k = ks[0]
+    if len(ks) > 1 and d.hs and len(d.hs) == 1:      # suite not settled for this epoch yet: it is the handshake's suite
+        k = next((x for x in ks if x.suite == d.hs[0].suite), ks[0])
+    return k, (d.gen % 2 if ptype == "1rtt" else 0)
 
 
 def make_datagram(sim, src, ptype, payload, pn=None, pad_to=None, **kw):
